@@ -13,6 +13,9 @@ pub struct Recorded {
     pub out: RunOut,
     /// names of the recording functions in the order they were called
     pub log: Vec<String>,
+    /// the caller's bindings after execution: name -> canonical value (None = unbound),
+    /// for every bound name and the usual loop-variable names
+    pub params_after: BTreeMap<String, Option<String>>,
 }
 
 /// Compile `src` (plus stored programs), bind values and recording functions, execute once.
@@ -31,12 +34,14 @@ pub fn run_recorded(
                 return Recorded {
                     out: RunOut { stage: Stage::Compile, res: Res::Err(e) },
                     log: vec![],
+                    params_after: BTreeMap::new(),
                 }
             }
             Err(p) => {
                 return Recorded {
                     out: RunOut { stage: Stage::Compile, res: Res::Panic(p) },
                     log: vec![],
+                    params_after: BTreeMap::new(),
                 }
             }
         }
@@ -47,32 +52,40 @@ pub fn run_recorded(
             let n = name.clone();
             let r = r.clone();
             let log = log.clone();
-            let f: Box<dyn Fn(CelValue, Vec<CelValue>) -> CelValue> = Box::new(move |_this, _args| {
-                log.borrow_mut().push(n.clone());
+            let f: Box<dyn Fn(CelValue, Vec<CelValue>) -> CelValue> = Box::new(move |_this, args| {
+                let texts: Vec<String> = args.iter().map(crate::run::canon_cel).collect();
+                log.borrow_mut().push(crate::model::log_entry(&n, &texts));
                 match &r {
                     FnResult::Val(v) => v.to_cel(),
                     FnResult::Fail => CelValue::from_err(CelError::Value("recording function fails".into())),
+                    FnResult::Echo => args.into_iter().next().unwrap_or(CelValue::Null),
                 }
             });
             (name.clone(), f)
         })
         .collect();
+    let mut params_after = BTreeMap::new();
     let res = {
         let mut b = BindContext::new();
         bind_all(&mut b, binds);
         for (name, f) in &closures {
             b.bind_func(name, f.as_ref());
         }
-        match guard(|| ctx.exec("main", &b)) {
+        let r = match guard(|| ctx.exec("main", &b)) {
             Ok(Ok(v)) => Res::Ok(v),
             Ok(Err(e)) => Res::Err(e),
             Err(p) => Res::Panic(p),
+        };
+        for name in binds.iter().map(|(k, _)| k.as_str()).chain(["x", "e", "it", "acc", "k", "v"]) {
+            params_after.insert(name.to_string(), b.get_param(name).map(crate::run::canon_cel));
         }
+        r
     };
     drop(closures);
     let calls: Vec<String> = log.borrow().clone();
     Recorded {
         out: RunOut { stage: Stage::Exec, res },
         log: calls,
+        params_after,
     }
 }
